@@ -307,7 +307,13 @@ def whole_charts(rec, props: tuple, seed: int, pid: str, shard_name: str, count:
         args = dict(n_tracks=rng.choice([0, 1, 2, 4]), n_groups=rng.choice([3, 30, 150]), n_globals=rng.choice([0, 6, 60]),
                     n_tempos=rng.choice([1, 2, 6, 25]), pad=i % 4 == 1)
         args.update(kw)
-        case = gen.gen_chart(rng, "hostile" if i % 2 else "realistic", **args)
+        if i % 4 == 3 and not kw:
+            # ordinary features piled on the same few ticks (tempo + signature + anchor + three kinds of global events + notes of
+            # every shape in several tracks + phrases that start / end / are empty there + sustains released there)
+            case = gen.interaction_chart(rng)
+            rec.cls("whole_chart_with_coinciding_features")
+        else:
+            case = gen.gen_chart(rng, "hostile" if i % 2 else "realistic", **args)
         out, ob, d = judge(rec, props, case, extra=extra)
         if d is not None and not select(d, props, extra):
             if direct_sections(rec, props, case, out):
